@@ -232,6 +232,8 @@ WIDE = {'ValueError': ('only_if', 'True'), 'IndexError': ('only_if', 'True'), 'T
 
 def registry():
     from . import padding
+    from vf.pyvc import interp as _interp
+    _interp.FEAS_TIMEOUT_MS = min(_interp.FEAS_TIMEOUT_MS, 80)      # pruning budget, see ecc_common.ecc_registry (PBES2.decrypt: 816 paths)
     reg = padding.registry()
     install_der_weak(reg)
     install_crypto_weak(reg)
